@@ -496,21 +496,25 @@ theorem expectedHost_cases (sa : Bool) (n : Str)
     · exact Or.inr ⟨hp, rfl⟩
   · exact Or.inl rfl
 
+theorem expected_netloc_ne_nil (sa : Bool) {n : Str} (hhost : specHost n ≠ []) :
+    canonNetloc n (expectedHost sp sa n) ≠ [] := by
+  have : expectedHost sp sa n ≠ [] := by
+    unfold expectedHost
+    split
+    · simpa [Py.lower] using hhost
+    · exact hhost
+  intro e
+  unfold canonNetloc at e
+  simp only [List.append_eq_nil_iff] at e
+  exact this e.1.2
+
 /-- **the components `lru_to_url` hands to `urlunsplit` satisfy `UrlRoundTrip.WF`** -/
 theorem wf_expected {u : Str} {p : Parts} (sa : Bool) (hf : UrlFacts u p)
     (hwf : wfNetloc p.netloc = true) (hhost : specHost p.netloc ≠ [])
     (hok : netlocOk (canonNetloc p.netloc (expectedHost sp sa p.netloc)) = true) :
     WF p.scheme (canonNetloc p.netloc (expectedHost sp sa p.netloc)) p.path p.query p.fragment := by
-  have hne : canonNetloc p.netloc (expectedHost sp sa p.netloc) ≠ [] := by
-    have : expectedHost sp sa p.netloc ≠ [] := by
-      unfold expectedHost
-      split
-      · simpa [Py.lower] using hhost
-      · exact hhost
-    intro e
-    unfold canonNetloc at e
-    simp only [List.append_eq_nil_iff] at e
-    exact this e.1.2
+  have hne : canonNetloc p.netloc (expectedHost sp sa p.netloc) ≠ [] :=
+    expected_netloc_ne_nil sp sa hhost
   have hsne : p.scheme ≠ [] := hf.scheme_letters.1
   refine ⟨Or.inr ⟨hf.scheme_letters.shaped, hf.scheme_lower⟩, ?_, hok, hf.path_noq, hf.path_noh,
     hf.query_noh, fun _ => hf.path_abs, fun e => absurd e hne, fun e => absurd e hsne,
@@ -548,5 +552,94 @@ theorem wf_expected {u : Str} {p : Parts} (sa : Bool) (hf : UrlFacts u p)
       · rw [hf.clean c (Or.inr (Or.inr (Or.inr hc)))] at hd; cases hd
 
 end
+
+
+/-! ## CPython's `.hostname` (model of `Py/Split.lean`) only holds characters of the netloc -/
+
+theorem mem_afterLast {sep c : Char} {s : Str} (h : c ∈ afterLast sep s) : c ∈ s := by
+  unfold afterLast at h
+  have := (List.takeWhile_sublist _).subset (List.mem_reverse.1 h)
+  exact List.mem_reverse.1 this
+
+theorem mem_beforeFirst {sep c : Char} {s : Str} (h : c ∈ beforeFirst sep s) : c ∈ s := by
+  unfold beforeFirst at h
+  cases hs : splitAtFirst sep s with
+  | none => simpa [hs] using h
+  | some ab =>
+    obtain ⟨a, b⟩ := ab
+    simp only [hs] at h
+    rw [(splitAtFirst_eq_some.mp hs).1]; simp [h]
+
+theorem mem_pyHostinfoHost {n : Str} {c : Char} (h : c ∈ pyHostinfoHost n) : c ∈ n := by
+  unfold pyHostinfoHost at h
+  simp only at h
+  cases hs : splitAtFirst '[' (afterLast '@' n) with
+  | none =>
+    simp only [hs] at h
+    exact mem_afterLast (mem_beforeFirst h)
+  | some ab =>
+    obtain ⟨a, b⟩ := ab
+    simp only [hs] at h
+    have hb := mem_beforeFirst h
+    apply mem_afterLast (sep := '@')
+    rw [(splitAtFirst_eq_some.mp hs).1]; simp [hb]
+
+/-- a character that is neither a lower-case letter nor `%` occurs in `.hostname` only if it
+occurs in the netloc -/
+theorem mem_pyHostname {n : Str} {c : Char} (hx : ¬ ('a' ≤ c ∧ c ≤ 'z')) (h1 : c ≠ '%')
+    (h : c ∈ pyHostname n) : c ∈ n := by
+  unfold pyHostname at h
+  simp only at h
+  cases hs : splitAtFirst '%' (pyHostinfoHost n) with
+  | none =>
+    simp only [hs] at h
+    exact mem_pyHostinfoHost (mem_of_mem_lower hx h)
+  | some ab =>
+    obtain ⟨a, zone⟩ := ab
+    simp only [hs, List.mem_append, List.mem_cons] at h
+    apply mem_pyHostinfoHost
+    rw [(splitAtFirst_eq_some.mp hs).1]
+    rcases h with h | h | h
+    · simp [mem_of_mem_lower hx h]
+    · exact absurd h h1
+    · simp [h]
+
+theorem pyHostname_congr {a b : Str} (h : pyHostinfoHost a = pyHostinfoHost b) :
+    pyHostname a = pyHostname b := by
+  unfold pyHostname; rw [h]
+
+/-! ## `saHostOK` by host shape -/
+
+section
+variable (sp : Str → Option (Str × Str))
+
+theorem saHostOK_plain {n : Str} (hp : Plain (specHost n)) :
+    saHostOK sp n = noneOf ['%'] (specHost n) := by
+  unfold saHostOK
+  have : ((specHost n).head? == some '[') = false := by
+    cases hh : specHost n with
+    | nil => rfl
+    | cons c r =>
+      have : c ≠ '[' := (hp c (by rw [hh]; simp)).2.1
+      simp [this]
+  rw [this]; rfl
+
+theorem saHostOK_bracketed {n inner : Str} (hin : specHost n = '[' :: inner ++ [']']) :
+    saHostOK sp n = (splitSuffixParsed sp n).isNone := by
+  unfold saHostOK
+  rw [hin]; rfl
+
+end
+
+
+/-! ## the printed URL starts with `scheme://` -/
+
+theorem printed_shape (p : Parts) (hs : Letters p.scheme) (hn : p.netloc ≠ [])
+    (hpath : p.path = [] ∨ ∃ q, p.path = '/' :: q) :
+    ∃ rest, renderParts p = p.scheme ++ ':' :: '/' :: '/' :: rest := by
+  rw [renderParts_eq20, urlunsplit20_eq,
+    bodyOf_true _ _ _ (by simp [hn]) hpath]
+  refine ⟨p.netloc ++ p.path ++ (queryPart p.query ++ fragPart p.fragment), ?_⟩
+  simp [schemePart, hs.1]
 
 end Ural.LruString
